@@ -114,17 +114,46 @@ Theorem C20_default_bodies_fit : forall ver cmd b, default_body ver cmd = Some b
 Proof. exact default_bodies_fit. Qed.
 Print Assumptions C20_default_bodies_fit.
 
-(* NOT repaired, known finding C20/body-over-1023: CreateCommandData ([create_command]) does not refuse a
-   body that does not fit the 10-bit length field.  Two WITNESSES (not a statement for every such body):
-   the frames it generates for 1024 bytes - 1024 zero bytes on a 2013 header, 1024 bytes 0xff on a 2019
-   header - are rejected by the decoder (the unmasked length sets the encryption bit and announces
-   length 0).  All other statements are for bodies of at most 1023 bytes. *)
+(* Bodies over 1023 bytes (known finding C20/body-over-1023: CreateCommandData does not refuse them).
+   The universal fact: whatever frame the decoder accepts, the body it delivers has at most 1023 bytes
+   (ten-bit length field); hence for EVERY Terminal state, command and body of 1024 bytes or more, the
+   frame CreateCommandData ([create_command]) produces never decodes to that body - it is rejected or
+   decodes to something else.  All other statements are for bodies of at most 1023 bytes. *)
+Theorem C20_decoded_body_at_most_1023 : forall f m, decode f = Ok m -> (length (m_body m) <= 1023)%nat.
+Proof. exact decode_body_short. Qed.
+Print Assumptions C20_decoded_body_at_most_1023.
+
+Theorem C20_body_over_1023_never_delivered : forall t cmd body m,
+  (1024 <= length body)%nat -> decode (snd (create_command t cmd body)) = Ok m -> m_body m <> body.
+Proof. exact body_over_1023_never_delivered. Qed.
+Print Assumptions C20_body_over_1023_never_delivered.
+
+(* two witnesses of what actually happens at 1024 bytes (2013 header / zero bytes, 2019 header / 0xff):
+   the unmasked length sets the encryption bit and announces length 0, the decoder rejects the frame *)
 Theorem C20_refuted_body_over_1023 :
   length (repeat (0 : N) 1024) = 1024%nat /\
   decode (snd (create_command (sim0 V2013 [1]) 0x0900 (repeat 0 1024))) = Err E_BODY_LEN /\
   decode (snd (create_command (sim0 V2019 [1; 3; 8]) 0x0200 (repeat 255 1024))) = Err E_BODY_LEN.
 Proof. exact refuted_body_over_1023. Qed.
 Print Assumptions C20_refuted_body_over_1023.
+
+(* NOT repaired, known finding C20/expected-reply-fragment: ExpectedReply takes any frame; for a frame
+   with the fragment bit (packet 1 of 2 of a 0x0200; the simulator itself never generates one: m_sum = 0
+   above) it predicts a 0x8001 built from the packet alone, while the server answers nothing until the
+   transfer is complete.  C20_expected_reply excludes exactly this class by [has_complete]. *)
+Theorem C20_refuted_expected_reply_fragment :
+  match dm ex_fragment with
+  | [d] =>
+    m_id (d_m d) = 0x0200 /\ In (m_id (d_m d)) sim_reply_ids /\ m_frag (d_m d) = 1 /\
+    m_sum (d_m d) = 2 /\ m_no (d_m d) = 1 /\ has_complete d = false /\ body_wf (d_m d) = true /\
+    writes (snd (step (final (init [d]) [MLook; MSend]) MReply)) = [] /\
+    writes (run [d]) = [] /\
+    snd (expected_reply (sim0 V2013 [1]) 0 ex_fragment) =
+      Some [126; 128; 1; 0; 5; 1; 56; 0; 19; 128; 0; 0; 0; 0; 9; 2; 0; 0; 37; 126]
+  | _ => False
+  end.
+Proof. exact refuted_expected_reply_fragment. Qed.
+Print Assumptions C20_refuted_expected_reply_fragment.
 
 (* the body-dependent hypotheses of C20_expected_reply (body_wf, not a too-short 0x0102) hold for EVERY
    default frame of a reply-bearing command, in every version; together with
